@@ -43,7 +43,7 @@ func envelopeFuncs(c *an.Check) (build, unlock *ssa.Function) {
 
 // unlockGates: the payload is returned only past every check (shared by C16 and C18).
 func unlockGates(c *an.Check, unlock *ssa.Function) (openCall *ssa.Call) {
-	for _, b := range unlock.Blocks {
+	for _, b := range an.ScanBlocks(unlock) {
 		for _, ins := range b.Instrs {
 			if isAEADCall(ins, "Open") {
 				openCall = ins.(*ssa.Call)
@@ -94,7 +94,7 @@ func unlockGates(c *an.Check, unlock *ssa.Function) (openCall *ssa.Call) {
 // that equal share ids are filtered across grants, not only within one (secretsharing.Recover panics on duplicates).
 func seenSetScope(c *an.Check, unlock *ssa.Function) {
 	n, bad := 0, ""
-	for _, b := range unlock.Blocks {
+	for _, b := range an.ScanBlocks(unlock) {
 		for _, ins := range b.Instrs {
 			lk, ok := ins.(*ssa.Lookup)
 			if !ok || !lk.CommaOk {
@@ -175,7 +175,7 @@ func c16(c *an.Check) {
 
 	// collected: append only past the de-duplication test, and seen is updated on that path with the same key
 	var appends []*ssa.Call
-	for _, b := range unlock.Blocks {
+	for _, b := range an.ScanBlocks(unlock) {
 		for _, ins := range b.Instrs {
 			if call, ok := ins.(*ssa.Call); ok && an.BuiltinName(call) == "append" && strings.HasSuffix(call.Type().String(), "secretsharing.Share") {
 				appends = append(appends, call)
@@ -184,7 +184,7 @@ func c16(c *an.Check) {
 	}
 	var seenUpd *ssa.MapUpdate
 	var seenLook []*ssa.Lookup
-	for _, b := range unlock.Blocks {
+	for _, b := range an.ScanBlocks(unlock) {
 		for _, ins := range b.Instrs {
 			switch x := ins.(type) {
 			case *ssa.MapUpdate:
@@ -220,7 +220,7 @@ func c16(c *an.Check) {
 				}},
 				an.Req{Name: "both scalars decoded without error", Holds: func(s *an.State, at ssa.Instruction) bool {
 					n := 0
-					for _, b := range unlock.Blocks {
+					for _, b := range an.ScanBlocks(unlock) {
 						for _, ins := range b.Instrs {
 							if call, ok := ins.(*ssa.Call); ok && call.Call.IsInvoke() && call.Call.Method.Name() == "UnmarshalBinary" && s.IsNil(call) {
 								n++
@@ -247,7 +247,7 @@ func c16(c *an.Check) {
 			}
 			_ = elem
 			// the Share literal's fields: find stores into the appended element's ID/Value fields
-			for _, b := range unlock.Blocks {
+			for _, b := range an.ScanBlocks(unlock) {
 				for _, ins := range b.Instrs {
 					st, ok := ins.(*ssa.Store)
 					if !ok {
@@ -273,7 +273,7 @@ func c16(c *an.Check) {
 	}
 	// result fields
 	okRes := false
-	for _, b := range unlock.Blocks {
+	for _, b := range an.ScanBlocks(unlock) {
 		for _, ins := range b.Instrs {
 			st, ok := ins.(*ssa.Store)
 			if !ok {
@@ -295,7 +295,7 @@ func c16(c *an.Check) {
 	// BuildEnvelope: a fresh grant body per grant
 	freshInner := false
 	nInner := 0
-	for _, b := range build.Blocks {
+	for _, b := range an.ScanBlocks(build) {
 		for _, ins := range b.Instrs {
 			if a, ok := ins.(*ssa.Alloc); ok && a.Heap && strings.HasSuffix(a.Type().String(), "EnvelopeGrantInner") {
 				nInner++
@@ -314,7 +314,7 @@ func c16(c *an.Check) {
 // all carry the last value).
 func shareScalarFreshness(c *an.Check, unlock *ssa.Function) {
 	nNew, fresh := 0, true
-	for _, b := range unlock.Blocks {
+	for _, b := range an.ScanBlocks(unlock) {
 		for _, ins := range b.Instrs {
 			st, ok := ins.(*ssa.Store)
 			if !ok {
@@ -396,7 +396,7 @@ func c17(c *an.Check) {
 		}
 	}
 	// usable on the path is a canonical value; find the phi web it belongs to
-	for _, b := range build.Blocks {
+	for _, b := range an.ScanBlocks(build) {
 		for _, ins := range b.Instrs {
 			if bo, ok := ins.(*ssa.BinOp); ok {
 				if _, isCmp := map[token.Token]bool{token.LEQ: true, token.LSS: true, token.GTR: true, token.GEQ: true}[bo.Op]; isCmp {
@@ -451,7 +451,7 @@ func c17(c *an.Check) {
 	c.Require(ok, "PROVENANCE", "envelope.BuildEnvelope compares the threshold with the shares recipients can reach", build, "", len(incs), "reachable = Σ min(shareCount, remaining budget) over grants with ≥1 keypair; budget = number of shares generated", why)
 	// the distribution loop hands out shares in grant order bounded by share count and the generated list
 	okDist := false
-	for _, b := range build.Blocks {
+	for _, b := range an.ScanBlocks(build) {
 		for _, ins := range b.Instrs {
 			if ia, isIA := ins.(*ssa.IndexAddr); isIA && ia.X == ssa.Value(share[0]) {
 				okDist = true
@@ -490,7 +490,7 @@ func buildDistribution(c *an.Check, build *ssa.Function, shares *ssa.Call) {
 	}
 	fieldStores := func(typ string) map[string]ssa.Value {
 		out := map[string]ssa.Value{}
-		for _, b := range build.Blocks {
+		for _, b := range an.ScanBlocks(build) {
 			for _, ins := range b.Instrs {
 				st, ok := ins.(*ssa.Store)
 				if !ok {
@@ -586,7 +586,7 @@ func buildDistribution(c *an.Check, build *ssa.Function, shares *ssa.Call) {
 	if okE {
 		// the grant body encrypted is the one that received the shares
 		recv := false
-		for _, b := range build.Blocks {
+		for _, b := range an.ScanBlocks(build) {
 			for _, ins := range b.Instrs {
 				if st, isSt := ins.(*ssa.Store); isSt {
 					if fa, isFA := st.Addr.(*ssa.FieldAddr); isFA && fa.X == inner && an.FieldOfAddr(fa) != nil && an.FieldOfAddr(fa).Name() == "Shares" {
@@ -614,7 +614,7 @@ func buildDistribution(c *an.Check, build *ssa.Function, shares *ssa.Call) {
 	okS, whyS := okE, "encryption wiring unresolved"
 	if okE {
 		var cts ssa.Value
-		for _, b := range build.Blocks {
+		for _, b := range an.ScanBlocks(build) {
 			for _, ins := range b.Instrs {
 				st, isSt := ins.(*ssa.Store)
 				if !isSt {
@@ -634,7 +634,7 @@ func buildDistribution(c *an.Check, build *ssa.Function, shares *ssa.Call) {
 			okS, whyS = false, "the grant does not carry (its keypair indexes, the ciphertexts made for them) as parallel lists"
 		}
 		placed := false
-		for _, b := range build.Blocks {
+		for _, b := range an.ScanBlocks(build) {
 			for _, ins := range b.Instrs {
 				if st, isSt := ins.(*ssa.Store); isSt {
 					if al, isAl := st.Val.(*ssa.Alloc); isAl && isNamedPtr(al.Type(), "EnvelopeGrant") {
@@ -654,7 +654,7 @@ func buildDistribution(c *an.Check, build *ssa.Function, shares *ssa.Call) {
 	ev := fieldStores("Envelope")
 	okT := ev["Threshold"] != nil && an.ResultCallTo(an.ConvOf(ev["Threshold"]), cConfGetThresh) != nil
 	okK := false
-	for _, b := range build.Blocks {
+	for _, b := range an.ScanBlocks(build) {
 		for _, ins := range b.Instrs {
 			st, isSt := ins.(*ssa.Store)
 			if !isSt {
